@@ -17,7 +17,8 @@ PROPS["C10"]["level_text"] += " " + (
     "2^wbits-16), is the real decoder's sticky max_distance state machine along any run of positions "
     "(dec_max_distance_closed). C10_fast_roundtrip_q29 / C10_trivial_roundtrip_q29 reach the BITS for quality 2 / 3: the "
     "RFC reader started in the decoder's state consumes exactly what BrotliStoreMetaBlockFast / Trivial emit and outputs "
-    "dictionary tail ++ prev ++ block. A concrete 8-byte dictionary + 24-byte block (with a static-dictionary reference "
+    "dictionary tail ++ prev ++ block. C10_faithful_q29: the same command array is `faithful` for that decoder and leaves "
+    "its distance ring equal to the dist_cache the call returns (cbr_final_state). A concrete 8-byte dictionary + 24-byte block (with a static-dictionary reference "
     "right behind the custom dictionary) meets every hypothesis."
 )
 PROPS["C10"]["level_note"] += " " + (
@@ -25,9 +26,12 @@ PROPS["C10"]["level_note"] += " " + (
     "tail ++ prev ++ block from one window before the block: C10 proves the dictionary part for its own ring model "
     "(dict_tail_in_ring), ring_view_w proves the whole of it for w-stream's ring model from RingOK; the two ring models "
     "and the hashers' ByteArray are not identified with each other in Lean (correspondence only: `dict ringw`, `stream`); "
-    "(2) the entropy-coding writers of quality 4-9 (BrotliStoreMetaBlock): C01MetaBlock(Full)'s wmbi theorems take exactly "
-    "the cmdOK/lockstep hypotheses this theorem now delivers for the DECODER's history, the composition line is not "
-    "written; (3) quality 10/11 (Zopfli model of C01, no lockstep theorem); (4) one CreateBackwardReferences call per "
+    "(2) the entropy-coding writers of quality 4-9 (BrotliStoreMetaBlock): C01MetaBlockFull's full_metablock_roundtrip / "
+    "wmbi_full_roundtrip take the command hypotheses cmdOK, lockstep (delivered for the DECODER's history), faithful "
+    "(delivered: C10_faithful_q29, via faithful_of_final: a run that ends in history ++ block at the end of the "
+    "meta-block is faithful) and copy_len() >= 2 for copying commands (NOT delivered: a 1-byte static-dictionary match "
+    "is reachable at extreme literal_byte_score), plus the block-split/histogram hypotheses MBOK/Covers; the "
+    "composition line is not written; (3) quality 10/11 (Zopfli model of C01, no lockstep theorem); (4) one CreateBackwardReferences call per "
     "meta-block, NPOSTFIX = NDIRECT = 0; (5) the real decoder's copy path over the dictionary tail is "
     "dict_tail_readable / decoder_shrunk_ring_clobbers_dict, which is about brotli-decompressor, not about the stream. "
     "'quality 0/1 emit no static-dictionary reference' and the decoder hand model stay as before."
